@@ -266,16 +266,20 @@ def rand_sim(rebound, rng, with_var, directed=False):
     """random simulation; returns (sim, nreal, sets) with sets = list of dicts(order, index, testparticle, a, b).
     directed: N_real >= 3, moving massive star, two full first-order sets BOTH with mass variations of every particle (k >= 2 included),
     and second-order sets (a,b) = (first, second) and (second, second)."""
-    sim = rebound.Simulation()
-    n = rng.choice([1, 2, 2, 3, 3, 4, 5, 7]) if not directed else rng.choice([3, 4])
-    sc = 10 ** rng.uniform(-2, 2)
-    for i in range(n):
-        u = rng.random()
-        m = rng.uniform(0.1, 10) if i == 0 else (0.0 if u < 0.15 else (10 ** rng.uniform(-10, -1) if u < 0.5 else rng.uniform(1e-3, 2)))
-        if i == 0 and rng.random() < 0.05:
-            m = 0.0
-        sim.add(m=m, x=rng.gauss(0, 1) * sc, y=rng.gauss(0, 1) * sc, z=rng.gauss(0, 1) * sc,
-                vx=rng.gauss(0, 1), vy=rng.gauss(0, 1), vz=rng.gauss(0, 1))
+    if directed or rng.random() < 0.55:
+        sim = rebound.Simulation()
+        n = rng.choice([1, 2, 2, 3, 3, 4, 5, 7]) if not directed else rng.choice([3, 4])
+        sc = 10 ** rng.uniform(-2, 2)
+        for i in range(n):
+            u = rng.random()
+            m = rng.uniform(0.1, 10) if i == 0 else (0.0 if u < 0.15 else (10 ** rng.uniform(-10, -1) if u < 0.5 else rng.uniform(1e-3, 2)))
+            if i == 0 and rng.random() < 0.05:
+                m = 0.0
+            sim.add(m=m, x=rng.gauss(0, 1) * sc, y=rng.gauss(0, 1) * sc, z=rng.gauss(0, 1) * sc,
+                    vx=rng.gauss(0, 1), vy=rng.gauss(0, 1), vz=rng.gauss(0, 1))
+    else:   # the edges of the frame operations: COM exactly zero, N = 1, only massless companions, already in the target frame
+        sim = c20_search.build_real(rebound, rng, rng.choice(c20_search.SHAPES[3:]))
+        n = sim.N
     sets = []
     if directed:
         f1 = sim.add_variation(order=1); f2 = sim.add_variation(order=1)
@@ -306,12 +310,16 @@ def rand_sim(rebound, rng, with_var, directed=False):
                     continue      # a 2nd-order test-particle set needs test-particle 1st-order sets; not exercised
                 v = sim.add_variation(order=2, first_order=a, first_order_2=b, testparticle=tp)
                 sets.append({"order": 2, "index": v.index, "testparticle": tp, "a": a.index, "b": b.index})
-        for i in range(n, sim.N):
-            p = sim.particles[i]
-            dm = 0.0 if rng.random() < 0.4 else rng.gauss(0, 1) * 0.1
-            p.m = dm
-            for c in COMPS:
-                setattr(p, c, rng.gauss(0, 1))
+        vk = rng.choice(c20_search.VARKINDS)
+        if vk == "generic":
+            for i in range(n, sim.N):
+                p = sim.particles[i]
+                dm = 0.0 if rng.random() < 0.4 else rng.gauss(0, 1) * 0.1
+                p.m = dm
+                for c in COMPS:
+                    setattr(p, c, rng.gauss(0, 1))
+        else:   # zero variation, masses only, coordinates only, one coordinate of one body
+            c20_search.fill_variations(rng, sim, vk, n)
     return sim, n, sets
 
 
@@ -330,71 +338,74 @@ def frame_cases(ctx, rebound, clib, nsims):
         before = snap(sim)
         ms = [before[i][0] for i in range(n)]
         ctx.case(key=("frame", op, n, len(sets), k), sample={"op": op, "N_real": n, "var_sets": sets, "masses": ms} if k in (2, 5) else None)
-        if op in ("com", "comvar"):
-            com = sim.com()
-            clib.reb_simulation_move_to_com(ctypes.byref(sim))
-            after = snap(sim)
-            M = com.m
-            for ci, c in enumerate(COMPS):
-                qs = [before[i][1 + ci] for i in range(n)]
-                cases.append((op, "(r_com %s %s)" % (vlib.flist(ms), vlib.flist(qs)),
-                              [M, getattr(com, c)] + [after[i][1 + ci] for i in range(n)], (k, c)))
-                for s in sets:
-                    idx = s["index"]
-                    if s["testparticle"] >= 0:
-                        if not vlib.same_bits(after[idx][1 + ci], before[idx][1 + ci]):
-                            pyfail.append(("testparticle variation changed", k, c))
-                        continue
-                    if s["order"] == 1:
-                        l = "[" + "; ".join(ftuple([before[i][0], before[i][1 + ci], before[idx + i][0], before[idx + i][1 + ci]])
-                                            for i in range(n)) + "]"
-                        cases.append((op + ":var1", "(r_var1 %s %s)" % (vlib.fhex(M), l), [after[idx + i][1 + ci] for i in range(n)], (k, c, idx)))
-                    else:
-                        a, b = s["a"], s["b"]
-                        l = "[" + "; ".join("(%s, %s, %s, %s)" % (ftuple([before[i][0], before[i][1 + ci]]),
-                                                                 ftuple([before[a + i][0], before[a + i][1 + ci]]),
-                                                                 ftuple([before[b + i][0], before[b + i][1 + ci]]),
-                                                                 ftuple([before[idx + i][0], before[idx + i][1 + ci]])) for i in range(n)) + "]"
-                        cases.append((op + ":var2", "(r_var2 %s %s)" % (vlib.fhex(M), l), [after[idx + i][1 + ci] for i in range(n)], (k, c, idx)))
-            for i in range(sim.N):
-                if not vlib.same_bits(after[i][0], before[i][0]):
-                    pyfail.append(("mass changed", k, i))
-        elif op in ("hel", "helvar"):
-            clib.reb_simulation_move_to_hel(ctypes.byref(sim))
-            after = snap(sim)
-            for ci, c in enumerate(COMPS):
-                cases.append((op, "(r_hel %s)" % vlib.flist([before[i][1 + ci] for i in range(n)]), [after[i][1 + ci] for i in range(n)], (k, c)))
-            for i in list(range(n, sim.N)):     # documented: variational particles are not affected
-                if any(not vlib.same_bits(a, b) for a, b in zip(after[i], before[i])):
-                    pyfail.append(("move_to_hel changed a variational particle", k, i))
-        elif op == "imul":
-            sp, sv = rng.choice([2.0, -1.0, 0.5, rng.gauss(0, 3)]), rng.choice([1.0, 3.0, rng.gauss(0, 3)])
-            clib.reb_simulation_imul(ctypes.byref(sim), ctypes.c_double(sp), ctypes.c_double(sv))
-            after = snap(sim)
-            for ci, c in enumerate(COMPS):
-                cases.append((op, "(r_imul %s %s)" % (vlib.fhex(sp if ci < 3 else sv), vlib.flist([b[1 + ci] for b in before])),
-                              [a[1 + ci] for a in after], (k, c)))
-        else:
-            sim2 = sim.copy()
-            for i in range(sim2.N):
-                for c in COMPS:
-                    setattr(sim2.particles[i], c, rng.gauss(0, 1))
-            b2 = snap(sim2)
-            f = clib.reb_simulation_iadd if op == "iadd" else clib.reb_simulation_isub
-            f.restype = ctypes.c_int
-            ret = f(ctypes.byref(sim), ctypes.byref(sim2))
-            after = snap(sim)
-            if ret != 0:
-                pyfail.append((op + " returned %d for equal N" % ret, k, 0))
-            for ci, c in enumerate(COMPS):
-                cases.append((op, "(r_%s %s %s)" % (op, vlib.flist([b[1 + ci] for b in before]), vlib.flist([b[1 + ci] for b in b2])),
-                              [a[1 + ci] for a in after], (k, c)))
-            if k % 3 == 0:      # different N: -1 and nothing modified (model: returns its first argument)
-                sim3 = rebound.Simulation(); sim3.add(m=1.0)
-                if sim.N != 1:
-                    b4 = snap(sim)
-                    if f(ctypes.byref(sim), ctypes.byref(sim3)) != -1 or any(not vlib.same_bits(x, y) for p, q in zip(snap(sim), b4) for x, y in zip(p, q)):
-                        pyfail.append((op + " with different N modified the simulation or did not return -1", k, 0))
+        for rep_ in ((1, 2) if op in ("com", "comvar", "hel", "helvar") else (1,)):      # second pass: the operation applied to its own result
+          if rep_ == 2:
+            before = snap(sim)
+          if op in ("com", "comvar"):
+              com = sim.com()
+              clib.reb_simulation_move_to_com(ctypes.byref(sim))
+              after = snap(sim)
+              M = com.m
+              for ci, c in enumerate(COMPS):
+                  qs = [before[i][1 + ci] for i in range(n)]
+                  cases.append((op, "(r_com %s %s)" % (vlib.flist(ms), vlib.flist(qs)),
+                                [M, getattr(com, c)] + [after[i][1 + ci] for i in range(n)], (k, c)))
+                  for s in sets:
+                      idx = s["index"]
+                      if s["testparticle"] >= 0:
+                          if not vlib.same_bits(after[idx][1 + ci], before[idx][1 + ci]):
+                              pyfail.append(("testparticle variation changed", k, c))
+                          continue
+                      if s["order"] == 1:
+                          l = "[" + "; ".join(ftuple([before[i][0], before[i][1 + ci], before[idx + i][0], before[idx + i][1 + ci]])
+                                              for i in range(n)) + "]"
+                          cases.append((op + ":var1", "(r_var1 %s %s)" % (vlib.fhex(M), l), [after[idx + i][1 + ci] for i in range(n)], (k, c, idx)))
+                      else:
+                          a, b = s["a"], s["b"]
+                          l = "[" + "; ".join("(%s, %s, %s, %s)" % (ftuple([before[i][0], before[i][1 + ci]]),
+                                                                   ftuple([before[a + i][0], before[a + i][1 + ci]]),
+                                                                   ftuple([before[b + i][0], before[b + i][1 + ci]]),
+                                                                   ftuple([before[idx + i][0], before[idx + i][1 + ci]])) for i in range(n)) + "]"
+                          cases.append((op + ":var2", "(r_var2 %s %s)" % (vlib.fhex(M), l), [after[idx + i][1 + ci] for i in range(n)], (k, c, idx)))
+              for i in range(sim.N):
+                  if not vlib.same_bits(after[i][0], before[i][0]):
+                      pyfail.append(("mass changed", k, i))
+          elif op in ("hel", "helvar"):
+              clib.reb_simulation_move_to_hel(ctypes.byref(sim))
+              after = snap(sim)
+              for ci, c in enumerate(COMPS):
+                  cases.append((op, "(r_hel %s)" % vlib.flist([before[i][1 + ci] for i in range(n)]), [after[i][1 + ci] for i in range(n)], (k, c)))
+              for i in list(range(n, sim.N)):     # documented: variational particles are not affected
+                  if any(not vlib.same_bits(a, b) for a, b in zip(after[i], before[i])):
+                      pyfail.append(("move_to_hel changed a variational particle", k, i))
+          elif op == "imul":
+              sp, sv = rng.choice([2.0, -1.0, 0.5, rng.gauss(0, 3)]), rng.choice([1.0, 3.0, rng.gauss(0, 3)])
+              clib.reb_simulation_imul(ctypes.byref(sim), ctypes.c_double(sp), ctypes.c_double(sv))
+              after = snap(sim)
+              for ci, c in enumerate(COMPS):
+                  cases.append((op, "(r_imul %s %s)" % (vlib.fhex(sp if ci < 3 else sv), vlib.flist([b[1 + ci] for b in before])),
+                                [a[1 + ci] for a in after], (k, c)))
+          else:
+              sim2 = sim.copy()
+              for i in range(sim2.N):
+                  for c in COMPS:
+                      setattr(sim2.particles[i], c, rng.gauss(0, 1))
+              b2 = snap(sim2)
+              f = clib.reb_simulation_iadd if op == "iadd" else clib.reb_simulation_isub
+              f.restype = ctypes.c_int
+              ret = f(ctypes.byref(sim), ctypes.byref(sim2))
+              after = snap(sim)
+              if ret != 0:
+                  pyfail.append((op + " returned %d for equal N" % ret, k, 0))
+              for ci, c in enumerate(COMPS):
+                  cases.append((op, "(r_%s %s %s)" % (op, vlib.flist([b[1 + ci] for b in before]), vlib.flist([b[1 + ci] for b in b2])),
+                                [a[1 + ci] for a in after], (k, c)))
+              if k % 3 == 0:      # different N: -1 and nothing modified (model: returns its first argument)
+                  sim3 = rebound.Simulation(); sim3.add(m=1.0)
+                  if sim.N != 1:
+                      b4 = snap(sim)
+                      if f(ctypes.byref(sim), ctypes.byref(sim3)) != -1 or any(not vlib.same_bits(x, y) for p, q in zip(snap(sim), b4) for x, y in zip(p, q)):
+                          pyfail.append((op + " with different N modified the simulation or did not return -1", k, 0))
     return cases, pyfail
 
 
